@@ -12,6 +12,13 @@ package main
 // Both go through the integer-function translator of intfn.go, so anything outside its subset
 // (a loop, another call, a changed shape of the guard) makes the command fail: the tie is then
 // reported as broken instead of silently keeping an old definition.
+//
+// Rewrites that cannot change the value are recognised (the Lean names stay `isClusterAvilable` /
+// `removeKeepsQuorum`, arguments are positional): another name for the closure (it is found by its
+// shape `func(int, int) bool` if the configured name is absent), other names for the locals `cp` /
+// `healthy`, the guard written `if ok := f(a, b); !ok { return Err }` or `if f(a, b) { return nil }; return Err`,
+// the sentinel wrapped (`fmt.Errorf("%w", Err)`), further value-less call statements (logging, metrics)
+// in the closure — but never one whose call chain names Panic/Fatal/Exit or a bare panic().
 
 import (
 	"flag"
@@ -38,6 +45,76 @@ func rootIdent(e ast.Expr) string {
 			return ""
 		}
 	}
+}
+
+// valueless: an expression statement that cannot influence the value the closure returns: a call whose
+// chain does not name panic / fatal / exit.
+func valueless(e ast.Expr) bool {
+	ok := true
+	sawCall := false
+	ast.Inspect(e, func(n ast.Node) bool {
+		switch x := n.(type) {
+		case *ast.CallExpr:
+			sawCall = true
+			if id, isId := x.Fun.(*ast.Ident); isId && (id.Name == "panic" || id.Name == "recover") {
+				ok = false
+			}
+		case *ast.SelectorExpr:
+			l := strings.ToLower(x.Sel.Name)
+			if strings.Contains(l, "panic") || strings.Contains(l, "fatal") || strings.Contains(l, "exit") || strings.Contains(l, "goexit") {
+				ok = false
+			}
+		case *ast.FuncLit:
+			ok = false
+		}
+		return ok
+	})
+	return ok && sawCall
+}
+
+func isIntBoolClosure(l *ast.FuncLit) bool {
+	if l.Type.Params == nil || l.Type.Results == nil || len(l.Type.Results.List) != 1 {
+		return false
+	}
+	n := 0
+	for _, f := range l.Type.Params.List {
+		id, ok := f.Type.(*ast.Ident)
+		if !ok || id.Name != "int" {
+			return false
+		}
+		k := len(f.Names)
+		if k == 0 {
+			k = 1
+		}
+		n += k
+	}
+	r, ok := l.Type.Results.List[0].Type.(*ast.Ident)
+	return n == 2 && ok && r.Name == "bool"
+}
+
+func rqMentions(e ast.Expr, name string) bool {
+	found := false
+	ast.Inspect(e, func(n ast.Node) bool {
+		if id, ok := n.(*ast.Ident); ok && id.Name == name {
+			found = true
+		}
+		return !found
+	})
+	return found
+}
+
+func returnsSentinel(st ast.Stmt, sentinel string) bool {
+	rs, ok := st.(*ast.ReturnStmt)
+	return ok && len(rs.Results) == 1 && rqMentions(rs.Results[0], sentinel)
+}
+
+func returnsNil(st ast.Stmt) bool {
+	rs, ok := st.(*ast.ReturnStmt)
+	if !ok || len(rs.Results) != 1 {
+		return false
+	}
+	id, ok := rs.Results[0].(*ast.Ident)
+	return ok && id.Name == "nil"
 }
 
 func cmdRaftQuorum(args []string) error {
@@ -68,83 +145,140 @@ func cmdRaftQuorum(args []string) error {
 	if encl == nil {
 		return fmt.Errorf("raftquorum: %s not found in %s (the tie to the source is broken)", *fn, file)
 	}
-	// 1. the closure
+	// 1. the closure: by its configured name, else the only closure of shape func(int, int) bool
 	var lit *ast.FuncLit
 	nlit := 0
-	ast.Inspect(encl.Body, func(n ast.Node) bool {
-		as, ok := n.(*ast.AssignStmt)
-		if !ok || len(as.Lhs) != 1 || len(as.Rhs) != 1 {
+	goName := *closure
+	find := func(byShape bool) {
+		lit, nlit = nil, 0
+		ast.Inspect(encl.Body, func(n ast.Node) bool {
+			as, ok := n.(*ast.AssignStmt)
+			if !ok || len(as.Lhs) != 1 || len(as.Rhs) != 1 {
+				return true
+			}
+			id, ok := as.Lhs[0].(*ast.Ident)
+			if !ok {
+				return true
+			}
+			l, ok := as.Rhs[0].(*ast.FuncLit)
+			if !ok {
+				return true
+			}
+			if (!byShape && id.Name == *closure) || (byShape && isIntBoolClosure(l)) {
+				lit, goName = l, id.Name
+				nlit++
+			}
 			return true
-		}
-		id, ok := as.Lhs[0].(*ast.Ident)
-		if !ok || id.Name != *closure {
-			return true
-		}
-		if l, ok := as.Rhs[0].(*ast.FuncLit); ok {
-			lit = l
-			nlit++
-		}
-		return true
-	})
+		})
+	}
+	find(false)
+	if nlit == 0 {
+		find(true)
+	}
 	if lit == nil || nlit != 1 {
-		return fmt.Errorf("raftquorum: closure %s not found exactly once in %s (found %d)", *closure, *fn, nlit)
+		return fmt.Errorf("raftquorum: availability closure (%s, or the only func(int, int) bool) not found exactly once in %s (found %d)", *closure, *fn, nlit)
 	}
 	var body []ast.Stmt
 	for _, st := range lit.Body.List {
 		if es, ok := st.(*ast.ExprStmt); ok {
-			if rootIdent(es.X) == "logger" {
+			if valueless(es.X) {
 				continue
 			}
-			return fmt.Errorf("raftquorum: unsupported expression statement in %s at %s", *closure, ctx.fset.Position(es.Pos()))
+			return fmt.Errorf("raftquorum: unsupported expression statement in %s at %s", goName, ctx.fset.Position(es.Pos()))
 		}
 		body = append(body, st)
 	}
 	d1 := &ast.FuncDecl{Name: &ast.Ident{Name: *closure, NamePos: lit.Pos()}, Type: lit.Type, Body: &ast.BlockStmt{List: body}}
+	// the closure keeps its Lean name whatever it is called in the source
 	f1 := &fnInfo{name: *closure, decl: d1, bool: true}
 	ctx.fns[*closure] = f1
-	// 2. the guard of the sentinel error: every `if` whose body returns the sentinel
-	var guards []*ast.IfStmt
-	ast.Inspect(encl.Body, func(n ast.Node) bool {
-		is, ok := n.(*ast.IfStmt)
-		if !ok || len(is.Body.List) == 0 {
-			return true
+	// 2. the guard of the sentinel error. Shapes: `if !f(a, b) { …; return Err }`,
+	// `if ok := f(a, b); !ok { …; return Err }`, `if f(a, b) { …; return nil }` directly followed by `return Err`.
+	var call *ast.CallExpr
+	var gpos token.Pos
+	nguards := 0
+	isCall := func(e ast.Expr) *ast.CallExpr {
+		c, ok := e.(*ast.CallExpr)
+		if !ok {
+			return nil
 		}
-		if rs, ok := is.Body.List[len(is.Body.List)-1].(*ast.ReturnStmt); ok && len(rs.Results) == 1 {
-			if id, ok := rs.Results[0].(*ast.Ident); ok && id.Name == *sentinel {
-				guards = append(guards, is)
+		if id, ok := c.Fun.(*ast.Ident); !ok || id.Name != goName || len(c.Args) != 2 {
+			return nil
+		}
+		return c
+	}
+	var shapeErr error
+	ast.Inspect(encl.Body, func(n ast.Node) bool {
+		blk, ok := n.(*ast.BlockStmt)
+		if !ok {
+			if cc, ok := n.(*ast.CaseClause); ok {
+				blk = &ast.BlockStmt{List: cc.Body}
+			} else {
+				return true
+			}
+		}
+		for i, st := range blk.List {
+			is, ok := st.(*ast.IfStmt)
+			if !ok || len(is.Body.List) == 0 {
+				continue
+			}
+			last := is.Body.List[len(is.Body.List)-1]
+			switch {
+			case returnsSentinel(last, *sentinel):
+				nguards++
+				gpos = is.Pos()
+				if is.Else != nil {
+					shapeErr = fmt.Errorf("raftquorum: guard of %s has an else part (unsupported shape)", *sentinel)
+					continue
+				}
+				cond := is.Cond
+				neg, ok := cond.(*ast.UnaryExpr)
+				if !ok || neg.Op != token.NOT {
+					shapeErr = fmt.Errorf("raftquorum: guard of %s is not of the form !%s(…)", *sentinel, goName)
+					continue
+				}
+				if is.Init == nil {
+					call = isCall(neg.X)
+				} else if as, ok := is.Init.(*ast.AssignStmt); ok && len(as.Lhs) == 1 && len(as.Rhs) == 1 {
+					l, ok1 := as.Lhs[0].(*ast.Ident)
+					v, ok2 := neg.X.(*ast.Ident)
+					if ok1 && ok2 && l.Name == v.Name {
+						call = isCall(as.Rhs[0])
+					}
+				}
+				if call == nil {
+					shapeErr = fmt.Errorf("raftquorum: guard of %s does not test %s with two arguments", *sentinel, goName)
+				}
+			case returnsNil(last) && i+1 < len(blk.List) && returnsSentinel(blk.List[i+1], *sentinel) && is.Init == nil && is.Else == nil && isCall(is.Cond) != nil:
+				nguards++
+				gpos = is.Pos()
+				call = isCall(is.Cond)
 			}
 		}
 		return true
 	})
-	if len(guards) != 1 {
-		return fmt.Errorf("raftquorum: expected exactly one `if … { return %s }` in %s, found %d", *sentinel, *fn, len(guards))
+	if nguards != 1 {
+		return fmt.Errorf("raftquorum: expected exactly one guarded `return %s` in %s, found %d", *sentinel, *fn, nguards)
 	}
-	g := guards[0]
-	if g.Init != nil || g.Else != nil {
-		return fmt.Errorf("raftquorum: guard of %s has an init or else part (unsupported shape)", *sentinel)
+	if shapeErr != nil {
+		return shapeErr
 	}
-	neg, ok := g.Cond.(*ast.UnaryExpr)
-	if !ok || neg.Op != token.NOT {
-		return fmt.Errorf("raftquorum: guard of %s is not of the form !%s(…)", *sentinel, *closure)
+	if call == nil {
+		return fmt.Errorf("raftquorum: guard of %s not recognised", *sentinel)
 	}
-	call, ok := neg.X.(*ast.CallExpr)
-	if !ok {
-		return fmt.Errorf("raftquorum: guard of %s is not of the form !%s(…)", *sentinel, *closure)
-	}
-	if id, ok := call.Fun.(*ast.Ident); !ok || id.Name != *closure || len(call.Args) != 2 {
-		return fmt.Errorf("raftquorum: guard of %s does not call %s with two arguments", *sentinel, *closure)
-	}
-	// free identifiers of the arguments: `cp.N` (selector on cp) and plain locals
+	// the Lean name of the closure is fixed
+	call = &ast.CallExpr{Fun: &ast.Ident{Name: *closure}, Args: call.Args}
+	// free identifiers of the arguments: `<recv>.N` (the cluster size of the progress report) and one plain local (the healthy count)
 	params := []*ast.Field{}
 	seen := map[string]bool{}
-	usesCpN := false
+	recv := ""
 	var bad error
 	for _, a := range call.Args {
 		ast.Inspect(a, func(n ast.Node) bool {
 			switch x := n.(type) {
 			case *ast.SelectorExpr:
-				if id, ok := x.X.(*ast.Ident); ok && id.Name == "cp" && x.Sel.Name == "N" {
-					usesCpN = true
+				if id, ok := x.X.(*ast.Ident); ok && x.Sel.Name == "N" && (recv == "" || recv == id.Name) {
+					recv = id.Name
 					return false
 				}
 				bad = fmt.Errorf("raftquorum: unsupported selector %s in the guard", exprString(x))
@@ -161,15 +295,15 @@ func cmdRaftQuorum(args []string) error {
 	if bad != nil {
 		return bad
 	}
-	if !usesCpN || len(params) != 1 || params[0].Names[0].Name != "healthy" {
-		return fmt.Errorf("raftquorum: guard arguments are expected to be built from cp.N and healthy only")
+	if recv == "" || len(params) != 1 {
+		return fmt.Errorf("raftquorum: guard arguments are expected to be built from <progress>.N and one local (the healthy count) only")
 	}
 	d2 := &ast.FuncDecl{
-		Name: &ast.Ident{Name: "removeKeepsQuorum", NamePos: g.Pos()},
-		Type: &ast.FuncType{Func: g.Pos(), Params: &ast.FieldList{List: params}},
+		Name: &ast.Ident{Name: "removeKeepsQuorum", NamePos: gpos},
+		Type: &ast.FuncType{Func: gpos, Params: &ast.FieldList{List: params}},
 		Body: &ast.BlockStmt{List: []ast.Stmt{&ast.ReturnStmt{Results: []ast.Expr{call}}}},
 	}
-	f2 := &fnInfo{name: "removeKeepsQuorum", decl: d2, bool: true, recv: "cp", fields: []string{"N"}}
+	f2 := &fnInfo{name: "removeKeepsQuorum", decl: d2, bool: true, recv: recv, fields: []string{"N"}}
 	ctx.fns["removeKeepsQuorum"] = f2
 
 	var b strings.Builder
